@@ -238,7 +238,9 @@ XpoaChainBox == UNION {
 (* height from start - 1 on (none on the genesis block).  The chain: k1 blocks, one in the first     *)
 (* slot of each of the terms 1..k1, then k2 blocks in the first slots of term k1 + 1; the candidate  *)
 (* extends the tip.  The clock covers the tip's term (judged by the set of that term) and the two   *)
-(* following terms (the candidate would begin a term).                                              *)
+(* following terms (the candidate would begin a term).  Scenarios are built on the configurations    *)
+(* with period >= 2 ms (a one-millisecond period has no slot 0, see OneMsPeriod) and an init          *)
+(* timestamp on a millisecond boundary.                                                             *)
 TAlt(n) == IF n = 1 THEN << <<2>>, <<3>> >>
            ELSE << Tup([i \in 1..n |-> i + 1]), Tup([i \in 1..n |-> i + 2]), Tup([i \in 1..n |-> n + 1 - i]),
                    Tup([i \in 1..n |-> IF i = 1 THEN n + 1 ELSE i - 1]) >>
@@ -264,7 +266,8 @@ TdposChain(c, st, sh) ==
   {[c EXCEPT !.u = c.n + 2, !.start = st, !.rec = TRec(c.n, st, sh[1] + sh[2]), !.bts = TBts(c, sh[1], sh[2]),
              !.hgt = sh[1] + sh[2] + 1, !.nodeAt = na, !.sid = 10 * sh[1] + sh[2]] : na \in NodeHeights(sh[1] + sh[2])}
 TdposChainBox == UNION {UNION {TdposChain(c, st, sh) : sh \in TShapes(c, st)} :
-                          c \in {x \in TdposBox : x.period \in ChainPeriods /\ x.period >= 2 /\ x.termInt \in ChainTermInts}, st \in Starts}
+                          c \in {x \in TdposBox : x.period \in ChainPeriods /\ x.period >= 2 /\ x.termInt \in ChainTermInts /\ x.init % Ms = 0},
+                          st \in Starts}
 
 Box == (IF "tdpos" \in Kinds THEN TdposBox \cup TdposChainBox ELSE {})
        \cup (IF "xpoa" \in Kinds THEN XpoaBox \cup XpoaChainBox ELSE {})
